@@ -1,4 +1,6 @@
 import BiotiteModel.Proofs.C03Kmer
+import BiotiteModel.Proofs.C03Codon
+import BiotiteModel.Proofs.C03Seq
 import BiotiteModel.Gen.C03
 /-!
 # C03 — property theorems (symbol encoding is a bijection; sequences behave like their strings)
@@ -132,6 +134,69 @@ theorem C03_seq_copy_eq (s : Seq α) : s.beq s = true := by simp [Seq.beq]
 theorem C03_seq_eq (a b : Seq α) : a.beq b = true ↔ a = b := by
   cases a; cases b; simp [Seq.beq, and_assoc]
 
+/-- Python/numpy index normalisation: `0 ≤ i < n` → `i`, `-n ≤ i < 0` → `i + n`, otherwise `IndexError`. -/
+theorem C03_seq_index_norm (n : Nat) (i : Int) :
+    (0 ≤ i → i < n → normIndex n i = .ok i.toNat) ∧
+    (i < 0 → -(n : Int) ≤ i → normIndex n i = .ok (i + n).toNat) ∧
+    ((n : Int) ≤ i ∨ i < -(n : Int) → normIndex n i = .error .indexError) :=
+  normIndex_spec n i
+
+/-- Indexing returns the symbol of the string at the (normalised) position; out of range raises. -/
+theorem C03_seq_index (s : Seq α) (x : List α) (h : s.symbols = .ok x) (i : Int) :
+    (∀ k, normIndex s.codes.length i = .ok k → k < x.length → ∃ a, x[k]? = some a ∧ s.getItem i = .ok a) ∧
+    ((x.length : Int) ≤ i ∨ i < -(x.length : Int) → s.getItem i = .error .indexError) := by
+  have hl := symbols_length s x h
+  constructor
+  · intro k hn hk
+    exact getItem_at s x h i k hn (by omega)
+  · intro hi
+    have := (normIndex_spec s.codes.length i).2.2 (by omega)
+    simp [Seq.getItem, this]
+
+/-- Slicing (`seq[a:b]`, any `None`/negative/out-of-range bounds) returns the slice of the string.
+The model is value-semantic: the result is a new sequence value.  (In the real code the result
+shares its code array with the original — a numpy view — so a *later* assignment to one is
+visible in the other; the model asserts nothing about that and the harness never mutates a
+sequence that shares memory.  `copy()`, `reverse()`, `+` and `complement()` do not alias; for
+`copy()` the harness mutates the original afterwards and compares the copy.) -/
+theorem C03_seq_slice (s : Seq α) (x : List α) (h : s.symbols = .ok x) (a b : Option Int) :
+    (s.slice a b).symbols =
+      .ok ((x.take (sliceBounds x.length a b).2).drop (sliceBounds x.length a b).1) :=
+  slice_symbols s x h a b
+
+/-- Assigning a symbol at a position updates exactly that position of the string; a symbol
+outside the alphabet is an `AlphabetError` and changes nothing. -/
+theorem C03_seq_assign (s : Seq α) (x : List α) (h : s.symbols = .ok x) (i : Int) (sym : α) :
+    (sym ∈ s.alph → ∀ k, normIndex s.codes.length i = .ok k →
+      ∃ s', s.setItem i sym = .ok s' ∧ s'.symbols = .ok (x.set k sym) ∧ s'.alph = s.alph ∧ s'.kind = s.kind) ∧
+    (sym ∉ s.alph → s.setItem i sym = .error .alphabetError) :=
+  ⟨fun hs k hn => setItem_symbols s x h i k hn sym hs, setItem_rejects s i sym⟩
+
+/-- Assigning symbols to a slice of the same length replaces that part of the string. -/
+theorem C03_seq_assign_slice (s : Seq α) (x : List α) (h : s.symbols = .ok x) (a b : Option Int)
+    (syms : List α) (hs : ∀ y ∈ syms, y ∈ s.alph)
+    (hl : syms.length = (sliceBounds x.length a b).2 - (sliceBounds x.length a b).1) :
+    ∃ s', s.setSlice a b syms = .ok s' ∧
+      s'.symbols = .ok (x.take (sliceBounds x.length a b).1 ++ syms ++ x.drop (sliceBounds x.length a b).2) :=
+  setSlice_symbols s x h a b syms hs hl
+
+/-- Slice assignment never corrupts: foreign symbol → `AlphabetError`; wrong length (other than
+numpy's broadcast of one symbol) → `ValueError`. -/
+theorem C03_seq_assign_slice_rejects (s : Seq α) (a b : Option Int) (syms : List α) :
+    ((∃ y ∈ syms, y ∉ s.alph) → s.setSlice a b syms = .error .alphabetError) ∧
+    ((∀ y ∈ syms, y ∈ s.alph) →
+      syms.length ≠ (sliceBounds s.codes.length a b).2 - (sliceBounds s.codes.length a b).1 →
+      syms.length ≠ 1 → s.setSlice a b syms = .error .valueError) :=
+  setSlice_rejects s a b syms
+
+/-- `AlphabetMapper`: when the target alphabet contains every source symbol the mapper can be
+built, and mapping any valid source codes preserves the symbols they denote. -/
+theorem C03_mapper_preserves (src tgt : List α) (hsub : ∀ s ∈ src, s ∈ tgt) :
+    ∃ m, mapperNew src tgt = .ok m ∧ ∀ codes : List Nat, (∀ c ∈ codes, c < src.length) →
+      ∃ out syms, mapperApply m codes = .ok out ∧ decode src (codes.map Int.ofNat) = .ok syms ∧
+        decode tgt (out.map Int.ofNat) = .ok syms :=
+  mapper_preserves src tgt hsub
+
 end SeqLaws
 
 /-! ## k-mer alphabets -/
@@ -253,7 +318,7 @@ theorem C03_spaced_eq_direct (n k : Nat) (spacing : List Nat) (hl : spacing.leng
 
 /-- Complete translation is the codon-by-codon table lookup: it is defined exactly for lengths
 divisible by 3, and then the protein is the list of table entries of the consecutive codons. -/
-theorem C03_translate_lookup (t : CodonTable) (code : List Nat) :
+theorem C03_translate_codonwise (t : CodonTable) (code : List Nat) :
     (code.length % 3 ≠ 0 → translateComplete t code = .error .valueError) ∧
     (code.length % 3 = 0 → translateComplete t code = mapE (lookupCodon t) (chunk3 code)) ∧
     (∀ a b c, a < 4 → b < 4 → c < 4 → 64 ≤ t.codons.length →
@@ -262,6 +327,58 @@ theorem C03_translate_lookup (t : CodonTable) (code : List Nat) :
   intro a b c ha hb hc hlen
   have hlt : 16 * a + 4 * b + c < t.codons.length := by omega
   exact ⟨t.codons[16 * a + 4 * b + c], by simp [hlt], by simp [lookupCodon, codonNumber, hlt]⟩
+
+/-- `CodonTable(codon_dict, starts)` (any dict with distinct codon keys, as a Python dict has):
+the table has 64 entries and looking up the *encoded* codon of any dict item returns the
+*encoded* amino acid of that item — the 64-slot array is the dict. -/
+theorem C03_table_lookup_eq_dict (nuc prot : List Nat) (hnd : nuc.Nodup) (hn4 : nuc.length = 4)
+    (dict : List (List Nat × Nat)) (hk : (dict.map (·.1)).Nodup) (starts : List (List Nat)) (t : CodonTable)
+    (h : codonTableNew nuc prot dict starts = .ok t) :
+    t.codons.length = 64 ∧
+    ∀ e ∈ dict, ∃ x y z a, encodeChars nuc e.1 = .ok [x, y, z] ∧ encode1 prot e.2 = .ok a ∧
+      lookupCodon t [x, y, z] = .ok a :=
+  codonTableNew_lookup nuc prot hnd hn4 dict hk starts t h
+
+/-- **Translation equals a codon-by-codon lookup in the chosen codon table**: the DNA string made
+of the codons `k₁ … kₙ` (keys of the dict the table was built from) translates completely to the
+protein `dict[k₁] … dict[kₙ]` (both sides in code representation). -/
+theorem C03_translate_lookup (nuc prot : List Nat) (hnd : nuc.Nodup) (hn4 : nuc.length = 4)
+    (dict : List (List Nat × Nat)) (hk : (dict.map (·.1)).Nodup) (starts : List (List Nat)) (t : CodonTable)
+    (h : codonTableNew nuc prot dict starts = .ok t) (items : List (List Nat × Nat))
+    (hsub : ∀ e ∈ items, e ∈ dict) :
+    ∃ code aas, encodeChars nuc (items.flatMap (·.1)) = .ok code ∧
+      mapE (encode1 prot) (items.map (·.2)) = .ok aas ∧ translateComplete t code = .ok aas :=
+  translate_eq_dict nuc prot hnd hn4 dict hk starts t h items hsub
+
+/-- **ORF exactness** (`translate(complete=False)`, any `met_start`): for a 64-entry table and an
+unambiguous code sequence the call succeeds and reports exactly the ORFs at the positions
+`s = 0 … len-3` whose codon is a start codon, in ascending order of `s` (the order the code
+produces by `argsort`); every in-frame translation it uses succeeds. -/
+theorem C03_orfs_exact (t : CodonTable) (ht : t.codons.length = 64) (code : List Nat)
+    (hc : ∀ c ∈ code, c < 4) (stopCode metCode : Nat) (metStart : Bool) :
+    translateOrfs t stopCode metCode metStart code =
+      .ok ((List.range (code.length - 2)).filterMap (orfAt t stopCode metCode metStart code)) ∧
+    ∀ s, ∃ prot, protFrom t code s = .ok prot := by
+  refine ⟨translateOrfs_spec t ht code hc stopCode metCode metStart, fun s => ?_⟩
+  exact mapCodon_ok t ht (code.drop s) fun c hcm => hc c (List.mem_of_mem_drop hcm)
+
+/-- The ORF at `s`: present iff the three symbols at `s` are a start codon; it spans from `s` to
+`s + 3·|protein|`, where the protein is the complete in-frame translation from `s` cut after
+the first stop symbol (or running to the frame end), with `met_start` replacing its first symbol. -/
+theorem C03_orf_at (t : CodonTable) (stopCode metCode : Nat) (metStart : Bool) (code : List Nat) (s : Nat) (o : Orf) :
+    orfAt t stopCode metCode metStart code s = some o ↔
+      ∃ a b c prot, (code.drop s).take 3 = [a, b, c] ∧ isStart t [a, b, c] = true ∧
+        protFrom t code s = .ok prot ∧
+        o = ⟨s, s + 3 * (uptoStop stopCode prot).length,
+             if metStart then (uptoStop stopCode prot).set 0 metCode else uptoStop stopCode prot⟩ :=
+  orfAt_spec t stopCode metCode metStart code s o
+
+/-- "First stop codon or the frame end": `uptoStop` keeps a prefix that contains no stop before its
+last element, ends with the stop if there is one, and is everything otherwise. -/
+theorem C03_upto_stop (stop : Nat) (ps : List Nat) :
+    ∃ rest, ps = uptoStop stop ps ++ rest ∧ (∀ p ∈ (uptoStop stop ps).dropLast, p ≠ stop) ∧
+      (stop ∈ ps → (uptoStop stop ps).getLast? = some stop) ∧ (stop ∉ ps → rest = []) :=
+  uptoStop_spec stop ps
 
 /-- The radix-4 codon number is a bijection between codons and `0..63` (`_to_number` / `_to_codon`). -/
 theorem C03_codon_number_bijection :
@@ -381,6 +498,15 @@ example : createKmers 4 3 none [0, 1, 2, 4, 3] = .error .alphabetError ∧ creat
 example : createKmers 4 3 (some [0, 2, 3]) [0, 1, 2, 3, 3] = .ok [11, 31] ∧ spacedWindow [0, 1, 2, 3, 3] [0, 2, 3] 1 = [1, 3, 3] ∧
     ([0, 2, 3] : List Nat).getLast? = some 3 := by decide
 example : (Seq.new 0 [65, 67] [67, 65]).bind (fun s => s.reverse.symbols) = .ok [65, 67] := by decide
+example : (Seq.mk 0 [65, 67, 71] [2, 0, 1]).getItem (-1) = .ok 67 ∧ (Seq.mk 0 [65, 67, 71] [2, 0, 1]).getItem 3 = .error .indexError := by decide
+example : ((Seq.mk 0 [65, 67, 71] [2, 0, 1, 1]).slice (some (-3)) none).symbols = .ok [65, 67, 67] := by decide
+example : ((Seq.mk 0 [65, 67, 71] [2, 0, 1, 1]).setSlice (some 1) (some 3) [71, 71]).bind Seq.symbols = .ok [71, 71, 71, 67] := by decide
+example : (mapperNew [84, 65] [65, 67, 71, 84]).bind (fun m => mapperApply m [0, 1, 1]) = .ok [3, 0, 0] := by decide
+example : (codonTableOfRows [65, 67, 71, 84] Gen.C03.protAlph (List.replicate 64 75) (105 :: List.replicate 63 45)
+      ((List.range 64).map fun i => [65, 67, 71, 84][i / 16]!) ((List.range 64).map fun i => [65, 67, 71, 84][i / 4 % 4]!)
+      ((List.range 64).map fun i => [65, 67, 71, 84][i % 4]!)).bind
+      (fun t => translateOrfs t 23 10 false [0, 0, 0, 1, 2, 0, 0, 0]) =
+    .ok [⟨0, 6, [8, 8]⟩, ⟨5, 8, [8]⟩] := by decide +kernel
 example : numberToCodon 53 = [3, 1, 1] ∧ codonNumber [3, 1, 1] = some 53 := by decide
 example : complementCodes Gen.C03.nucAmb Gen.C03.complDict [0, 4, 14] = .ok [3, 5, 14] := by decide +kernel
 
